@@ -35,6 +35,7 @@ class Matmul(Function):
         rhs = ctx.saved_tensors[0]
         matrix_args = ctx.saved_tensors[1:]
         rhs_shape = rhs.shape
+        is_vector = rhs.ndimension() == 1
 
         rhs_grad = None
         arg_grads = [None] * len(matrix_args)
@@ -42,7 +43,7 @@ class Matmul(Function):
         # input_1 gradient
         if any(ctx.needs_input_grad[2:]):
             rhs = rhs.unsqueeze(-1) if (rhs.ndimension() == 1) else rhs
-            grad_output_matrix = grad_output.unsqueeze(-1) if grad_output.ndimension() == 1 else grad_output
+            grad_output_matrix = grad_output.unsqueeze(-1) if is_vector else grad_output
             arg_grads = ctx.representation_tree(*matrix_args)._bilinear_derivative(grad_output_matrix, rhs)
 
         # input_2 gradient
@@ -52,7 +53,7 @@ class Matmul(Function):
             else:
                 linear_op = ctx.representation_tree(*matrix_args)
 
-            if grad_output.dim() == 1:
+            if is_vector:
                 # Confusing Cublas_Sgemv bug when grad_output is single dimensional on GPU.
                 rhs_grad = linear_op._t_matmul(grad_output.unsqueeze(-1)).squeeze(-1)
             else:
